@@ -26,7 +26,7 @@ func init() {
 		Real:           []string{"client send loop, sync rounds, reply parser, history store, energy file reader", "server report handler, sync handler, rotation loop, restart"},
 		Stub:           []string{"kernel sockets (UDP queue / simulated TCP connections with a fault layer)", "the meter firmware (harness writes energy_data.csv)"},
 		Assumptions:    []string{"readings fit 32 signed bits (the property's own restriction)", "the coverage claim is about the server contacted by the final sync round"},
-		RequiredProbes: []string{"c08.recovered-by-retransmission", "c08.negative-reading", "c08.sentinel-reading", "c08.sync-failed-before", "c08.rotation", "c08.server-restart", "c08.dup-retransmission", "c08.long-outage", "c08.old-slot-probed"},
+		RequiredProbes: []string{"c08.recovered-by-retransmission", "c08.negative-reading", "c08.sentinel-reading", "c08.sync-failed-before", "c08.rotation", "c08.server-restart", "c08.dup-retransmission", "c08.long-outage", "c08.old-slot-probed", "c08.reading-at-origin"},
 		RequiredSites:  []string{"send.wake", "send.tick", "csync.start", "csync.wake", "csync.resend", "report.after-write"},
 	})
 }
@@ -133,6 +133,11 @@ func runC08(m *Sim) {
 	}
 	ticks := 30 + m.C.Int("ticks", 120)
 	slot := start
+	if m.C.Chance("reading-at-origin", 2, 3) {
+		// The very first slot of the device's history (timeslot == origin).
+		cl.MeterAppend(start, c08Readings[m.C.Int("reading", len(c08Readings))], m.C.Int("sec", 300))
+		m.Probe("c08.reading-at-origin")
+	}
 	cOffset := func(n *ServerNode) uint32 { return n.Snap().Offset }
 	for i := 0; i < ticks; i++ {
 		if m.C.Chance("new-slot", 1, 2) {
